@@ -151,7 +151,7 @@ static int hist_core(const case_t *c, int emit)
     if (failat > 0) sluv_alloc_fail_from(failat);
     size_t heap_start = heap_bytes();
     int tasks_start = count_tasks();
-    long est_bytes = 0;
+    long est_bytes = 0, work_allocs = 0;
 
     for (int rep = 0; rep < reps && !stop; ++rep) {
         const char *p = ops;
@@ -191,7 +191,8 @@ static int hist_core(const case_t *c, int emit)
                             pxgstrf_finalize(&o2, &AC2); StatFree(&gs); free(pc2); free(pr2);
                         }
                         lwork = (long)(cdbl(c, "lwfrac", 1.5) * (double)est_bytes);
-                        lwork &= ~7L;
+                        /* the size is used as computed (the query's answer is not a multiple of 8 for even n), optionally with a few odd bytes */
+                        lwork += cint(c, "lwodd", 0);
                         if (lwork <= 0) lwork = 8;
                     }
                     free(H.work); H.work = work = malloc((size_t)lwork);   /* plain malloc: ASan red zones at both ends */
@@ -208,9 +209,14 @@ static int hist_core(const case_t *c, int emit)
                 SuperMatrix Lsent, Usent;
                 if (op == 'Q') { memset(&H.L, 0x3c, sizeof H.L); memset(&H.U, 0x3c, sizeof H.U); }
                 Lsent = H.L; Usent = H.U;
-                mon_reset(); mon_enable(0, (uint64_t)cint(c, "pert", 0) + opi, (int)cint(c, "pmode", 0), 1, nprocs);
+                mon_reset(); mon_enable(lwork > 0 ? 2 : 0, (uint64_t)cint(c, "pert", 0) + opi, (int)cint(c, "pmode", 0), 1, nprocs);
                 GSTRF(&H.opt, &H.AC, H.perm_r, &H.L, &H.U, &H.Gstat, &info);
                 mon_disable();
+                if (lwork > 0) {
+                    ev_t *wev = NULL; size_t nwev = mon_collect(&wev);
+                    work_allocs += mon_check_work(wev, nwev, work, lwork, "C14");
+                    free(wev);
+                }
                 StatFree(&H.Gstat);
                 il += snprintf(infos + il, sizeof infos - il, "%s%c%ld", il ? "," : "", op, (long)info);
                 if (il > sizeof infos - 32) il = sizeof infos - 32;
@@ -310,8 +316,11 @@ static int hist_core(const case_t *c, int emit)
                 CREATE_DENSE(&X2, n, 1, xx, n > 0 ? n : 1, SLU_DN, SLU_DT, SLU_GE);
                 get_perm_c(ord, &A2, pc2);
                 int_t info = -999;
-                if (op == 'V') GSSV(nprocs, &A2, pc2, pr2, &L2, &U2, &B2, &info);
-                else {
+                uint64_t dv = FNV0;
+                if (op == 'V') { GSSV(nprocs, &A2, pc2, pr2, &L2, &U2, &B2, &info);
+                    dv = fnv(&info, sizeof info, dv);
+                    if (info >= 0 && info <= n) { dv = fnv(pr2, n * sizeof(int_t), dv); if (info == 0) dv = fnv(bb, n * sizeof(elem_t), dv); }
+                } else {
                     superlumt_options_t o2; memset(&o2, 0, sizeof o2);
                     o2.nprocs = nprocs; o2.fact = EQUILIBRATE; o2.trans = NOTRANS; o2.refact = NO; o2.panel_size = w; o2.relax = relax;
                     o2.diag_pivot_thresh = H.u; o2.usepr = NO; o2.SymmetricMode = NO; o2.PrintStat = NO; o2.perm_c = pc2; o2.perm_r = pr2;
@@ -321,8 +330,17 @@ static int hist_core(const case_t *c, int emit)
                     equed_t eq2; superlu_memusage_t mu;
                     GSSVX(nprocs, &o2, &A2, pc2, pr2, &eq2, R2, C2, &L2, &U2, &B2, &X2, &rpg2, &rc2, fe, be, &mu, &info);
                     SUPERLU_FREE(o2.etree); SUPERLU_FREE(o2.colcnt_h); SUPERLU_FREE(o2.part_super_h);
+                    /* every output of the expert driver that is defined for this info */
+                    dv = fnv(&info, sizeof info, dv);
+                    if (arg != 2 && info >= 0 && info <= n + 1) {
+                        dv = fnv(pr2, n * sizeof(int_t), dv); dv = fnv(&eq2, sizeof eq2, dv); dv = fnv(&rpg2, sizeof rpg2, dv);
+                        if (eq2 == ROW || eq2 == BOTH) dv = fnv(R2, n * sizeof(real_t), dv);
+                        if (eq2 == COL || eq2 == BOTH) dv = fnv(C2, n * sizeof(real_t), dv);
+                        if (info == 0 || info == n + 1) { dv = fnv(&rc2, sizeof rc2, dv); dv = fnv(xx, n * sizeof(elem_t), dv); dv = fnv(fe, sizeof(real_t), dv); dv = fnv(be, sizeof(real_t), dv); }
+                    }
                     free(R2); free(C2);
                 }
+                if (nprocs == 1) { dl += snprintf(dig + dl, sizeof dig - dl, "%s%c:%016llx", dl ? "," : "", op, (unsigned long long)dv); if (dl > sizeof dig - 40) dl = sizeof dig - 40; }
                 il += snprintf(infos + il, sizeof infos - il, "%s%c%ld", il ? "," : "", op, (long)info);
                 if (il > sizeof infos - 32) il = sizeof infos - 32;
                 if (info >= 0 && info <= n + 1) { Destroy_SuperNode_SCP(&L2); Destroy_CompCol_NCP(&U2); }
@@ -341,7 +359,7 @@ static int hist_core(const case_t *c, int emit)
     sluv_alloc_fail_from(0);
     int tasks_end = count_tasks_settled(tasks_start);
     jo_str("infos", infos); jo_str("digest", dig);
-    jo_int("nops", nops); jo_int("nfact", nfact); jo_int("nrefact", nrefact); jo_int("nsolve", nsolve); jo_int("queries", queries);
+    jo_int("work_allocs", work_allocs); jo_int("nops", nops); jo_int("nfact", nfact); jo_int("nrefact", nrefact); jo_int("nsolve", nsolve); jo_int("queries", queries);
     jo_int("usepr_kept", usepr_kept); jo_int("usepr_changed", usepr_changed); jo_int("usepr_undec", usepr_undec); jo_int("inbuf_checked", inbuf_checked);
     jo_int("allocs", sluv_alloc_count()); jo_int("alloc_failed", nfailed_allocs); jo_int("est_bytes", est_bytes);
     if (tasks_end != tasks_start && !HX_TSAN) jo_fail("C17|thread-left", "thread count %d at start, %d at end of the history", tasks_start, tasks_end);
@@ -373,10 +391,22 @@ int cmd_hist(const case_t *c)
             for (char *q = tok; *q && k < sizeof line - 2; ++q) line[k++] = (*q == ';') ? ' ' : (*q == ':') ? '=' : *q;
             line[k] = 0;
             case_t pc; case_parse(&pc, line);
+            long sweep = cint(&pc, "sweep", 0);
+            if (sweep > 0) {
+                /* a long history of assorted small systems: sweep calls with seeds s0, s0+1, ... and orders 5..44 */
+                long s0 = cint(&pc, "seed", 1);
+                case_free(&pc);
+                for (long i = 0; i < sweep; ++i) {
+                    char l2[1200];
+                    snprintf(l2, sizeof l2, "cmd=hist id=-1 seed=%ld n=%ld %s", s0 + i, 5 + (i * 7) % 40, line + strlen("cmd=hist id=-1 "));
+                    case_parse(&pc, l2);
+                    hist_core(&pc, 0);
+                    case_free(&pc);
+                }
+                continue;
+            }
             /* failures of the prefix itself are not this case's business: keep the record clean */
-            int nf0 = jo_nfail();
             hist_core(&pc, 0);
-            (void)nf0;
             case_free(&pc);
         }
         free(buf);
